@@ -266,9 +266,9 @@ def gen_history(rng, nc, n, copyable, has_lv):
             else:
                 st[c] = "dirty"
         # throw injection: the next element copy/move number k throws; the containers involved are given up afterwards
-        if steps and rng.random() < 0.06 and steps[-1]["op"] not in ("At", "Destroy", "Construct", "PopBack"):
+        if steps and rng.random() < 0.10 and steps[-1]["op"] not in ("At", "Destroy", "Construct", "PopBack", "DestroyIfExists") and "throw_at" not in steps[-1]:
             last = steps[-1]
-            last["throw_at"] = rng.randint(1, 4)
+            last["throw_at"] = rng.choice([1, 1, 1, 2, 2, 3, 4])
             inv = [a - 1 for a in last["args"][:2] if isinstance(a, int) and 1 <= a <= nc]
             if last["op"] in ("EmplaceBack", "InsertMove", "PushBack", "InsertCopy", "EmplaceAt", "Erase", "SetAt", "RangeInsert", "PushBackRange", "AssignList", "ConstructFrom", "ConstructList"):
                 inv = [last["args"][0] - 1]
@@ -314,8 +314,7 @@ def record(chk, exe, has_lv, n_hist, nc=3):
             out, val = (g["out"], []) if isinstance(g["out"], str) else ("ok", g["out"])
             who = [s["args"][0]] + ([s["args"][1]] if op in ("CopyConstruct", "MoveConstruct", "CopyAssign", "MoveAssign") else [])
             evs.append(dict(e=op, args=s["args"], out=out, val=val, who=who,
-                            state=[dict(st=("dirty" if (out == "threw" and ci in who and x["st"] != "absent") else x["st"]), cap=x["cap"], size=x["size"],
-                                        seq=([] if (out == "threw" and ci in who) else x.get("seq", []))) for ci, x in enumerate(g["state"], 1)],
+                            state=[dict(st=x["st"], cap=x["cap"], size=x["size"], seq=x.get("seq", [])) for ci, x in enumerate(g["state"], 1)],
                             objs=g["objs"], bad=g["bad"]))
             # cross-accessor consistency of the projection itself (the trace carries only seq)
             for ci, x in enumerate(g["state"], 1):
